@@ -95,7 +95,9 @@ def build_impl(flavor='asan'):
                                os.path.join(d, 'obj', 'h_' + os.path.basename(s)[:-3] + '.o')])
         csrc = sorted(glob.glob(os.path.join(VERIF, 'harness', 'helpers', '*.c')))
         for s in csrc:
-            cmds.append(['gcc', '-O1', '-o', os.path.join(d, os.path.basename(s)[:-2]), s])
+            b = os.path.basename(s)[:-2]
+            if b.startswith('lib'): cmds.append(['gcc', '-O1', '-shared', '-fPIC', '-o', os.path.join(d, b + '.so'), s])
+            else: cmds.append(['gcc', '-O1', '-o', os.path.join(d, b), s])
         fails = _parallel(cmds)
         if fails:
             raise BuildError('compilation of the working tree failed:\n' + '\n'.join(
